@@ -342,6 +342,8 @@ def build_script(ctx, items, warm=True, snap=True):
         jam = f.get("out") == "filefifo" and f.get("state") == "ok"
         if sum(label.encode()) % 4 == 2:
             s.add("sigblock", 13).add("sigblock", 10)      # a quarter of the callers have SIGPIPE and SIGUSR1 blocked
+        if sum(label.encode()) % 4 == 3:
+            s.add("sigactions")                            # ... another quarter have sigaction()-installed handlers (flags, mask) for SIGPIPE & co.
         if warm:
             if jam:
                 s.add("fifojam", "filefifo", 60)
